@@ -135,3 +135,27 @@ pub fn enclose_largest_representable_payload() {
         Err(e) => { std::mem::forget(e); assert!(false); }
     }
 }
+
+/// A-conv (units/c13-frame): the three facts about std's u64 byte conversions that the Verus round-trip lemma
+/// `lemma_header_roundtrip` assumes — for EVERY u64 and every field width 0..=8 (complete: full-domain symbolic inputs,
+/// the only loops run over the 8 byte positions)
+#[kani::proof]
+#[kani::unwind(10)]
+pub fn conv_axioms() {
+    let x: u64 = kani::any();
+    let lfl: usize = kani::any();
+    kani::assume(lfl <= 8);
+    assert!(u64::from_be_bytes(x.to_be_bytes()) == x);
+    assert!(u64::from_le_bytes(x.to_le_bytes()) == x);
+    let fits = lfl >= 8 || (x as u128) < (1u128 << (8 * lfl as u32));
+    if fits {
+        let be = x.to_be_bytes();
+        let le = x.to_le_bytes();
+        let mut i = 0;
+        while i < 8 {
+            if i < 8 - lfl { assert!(be[i] == 0, "a value that fits the field has zero high bytes (big endian)"); }
+            if i >= lfl { assert!(le[i] == 0, "a value that fits the field has zero high bytes (little endian)"); }
+            i += 1;
+        }
+    }
+}
